@@ -2,6 +2,7 @@ mod client_core;
 mod client_props;
 mod codec;
 mod c16;
+mod c16_hist;
 mod chain;
 mod chain_props;
 mod driver;
